@@ -685,9 +685,15 @@ class Facts:
         self.raw = d
         self.path = path
         if not os.environ.get("VERIF_NONORM"):
-            from normalize import desugar_option_like, std_equivalents
+            from normalize import desugar_option_like, std_equivalents, desugar_newtypes, forwarders
+            from normalize import desugar_located_bucket
+            from normalize import flatten_table_holder
+            self.flattened = flatten_table_holder(d)
+            self.newtypes = desugar_newtypes(d)
+            self.bucket_enum = desugar_located_bucket(d)
             self.desugared = desugar_option_like(d)
             self.std_equivalents = std_equivalents(d)
+            self.forwarders = forwarders(d) if self.newtypes else {}
         self.crate = d["crate"]
         self.cfg = d["cfg"]
         self.debug_assertions = d["debug_assertions"]
